@@ -98,8 +98,11 @@ class RefServer:
             else:
                 self._p(n == 0, "expedited-n-without-s")
                 data = f[4:8]
-            self._commit(idx, sub, data)
             self.state = "idle"
+            if self.refuse_commit:
+                # the device refuses the value (e.g. out of range): abort instead of the confirmation
+                return [sx.mkbytes([0x80, f[1], f[2], f[3]] + le32(0x06090030))]
+            self._commit(idx, sub, data)
         else:
             self._p(n == 0, "segmented-initiate-n")
             if s == 1:
@@ -129,13 +132,18 @@ class RefServer:
         if c == 1:
             if self.declared is not None:
                 self._p(self.declared == len(self.buf), "declared-size-equals-sent")
-            self._commit(self.mux[0], self.mux[1], self.buf)
             self.state = "idle"
+            if self.refuse_commit:
+                idx, sub = self.mux
+                return [sx.mkbytes([0x80, sx.byte_of(idx, 0), sx.byte_of(idx, 1), sub] + le32(0x06090030))]
+            self._commit(self.mux[0], self.mux[1], self.buf)
         else:
             # a non-final segment must carry data (an empty non-final segment is never useful and the
             # standard's n is "bytes that do not contain data": 7 is only sensible on the last one)
             pass
         return resp
+
+    refuse_commit = False
 
     def _commit(self, idx, sub, items):
         self.commits.append((idx, sub, list(items)))
